@@ -102,8 +102,12 @@ CLAIMED["C07"] = dict(
     text="Decides the gadget algebra and the wiring only: bit_adder / bit_subtractor equal the full adder (of x, !y, c) on all 8 inputs and read the incoming carry before overwriting it; or / bool_or / select equal OR / the multiplexer on all inputs; the three local shares of the semi-honest multiplication add up to the product as a polynomial identity, are sent left / received right and assembled as (local, received); each comparison / subtraction / addition entry point starts from the carry-in that two's-complement arithmetic requires (geq, sub, sat_sub: 1; gt, add, sat_add: 0), passes (x, y) in order and returns the threaded carry / the circuit bits / select(carry, diff, 0) / or(sum, carry); the ripple loops zip x with y padded by ZERO, narrow per bit index and push outputs in order. Share conversion, the PRF, integer multiplication, aggregation and vectorised layouts are NOT decided; no circuit is executed.",
     ref="§3 C07")
 
+CLAIMED["C01"] = dict(
+    technique="static analysis: variant-arm evaluation of the pair-grouping transition table, call-shape and def-use checks of the grouping map, operand/field wiring of the two pair sums, dominator-ordered must-pass-through of the pipeline stages with await settlement and data-flow between stages, collective-participation rule (no Ok return that bypasses a cross-shard stage)",
+    text="Decides only the structural clauses of the statement: a match key contributes iff it occurs exactly twice (MatchEntry Single->Pair->MoreThanTwo table, into_pair only for Pair); pairs are formed in an ordered map keyed by the report's own match key; a pair's breakdown key and value are the sums of the fields of the same name of its two reports under distinct steps with the pair index as record id; hybrid_protocol runs pad, shuffle, PRF+reshard, pair aggregation, breakdown reveal, finalize in that order, each awaited, error-propagated and fed by its predecessor; every shard takes part in every cross-shard stage (one known finding: early return on empty local input). The numerical equality of the histogram with the plaintext reference over all inputs, saturation arithmetic and DP noise are NOT decided.",
+    ref="§3 C01")
+
 NOT_APPLICABLE = {
-    "C01": "end-to-end numerical equality of the MPC histogram with a plaintext reference over all inputs/shardings: no clause of it is visible in code shape; static analysis in reach cannot bound it (DESIGN.md §4)",
 }
 
 PENDING = "check not built yet in this revision (planned structural rules are described in DESIGN.md §3); not claimed until the rule module exists"
